@@ -18,6 +18,10 @@ type secureSession struct {
 	decryptCount uint64
 
 	readEncrypted bool
+
+	// decryptFailed is true after a packet could not be verified.
+	// Nothing is decrypted from then on, the stream is not trustworthy any more.
+	decryptFailed bool
 }
 
 // NewSecureSessionFromSharedKey returns a session from a shared private key.
@@ -89,6 +93,10 @@ func (s *secureSession) Encrypt(r io.Reader) (io.Reader, error) {
 
 // Decrypt returns the decrypted data
 func (s *secureSession) Decrypt(r io.Reader) (io.Reader, error) {
+	if s.decryptFailed {
+		return nil, fmt.Errorf("Data encryption failed before")
+	}
+
 	var buf bytes.Buffer
 	for {
 		var length uint16
@@ -119,6 +127,9 @@ func (s *secureSession) Decrypt(r io.Reader) (io.Reader, error) {
 		decrypted, err := chacha20poly1305.DecryptAndVerify(s.decryptKey[:], nonce[:], b, mac, lengthBytes)
 
 		if err != nil {
+			// A packet was altered, dropped, repeated or reordered. The following packets
+			// must not be accepted with the counters which come after the failed one.
+			s.decryptFailed = true
 			return nil, fmt.Errorf("Data encryption failed %s", err)
 		}
 
